@@ -1,8 +1,49 @@
 use vstd::prelude::*;
 verus! {
+//@include frag/std.tpl
 // C09, version clause: the set of TLS protocol versions rodbus hands to the TLS library for a configured minimum.
 pub mod sfio_rustls_config {
     use vstd::prelude::*;
+    use crate::tls_env::Path;
+    use crate::tls_env::*;
+    pub struct Error { pub x: u8 }
+    pub enum ServerNameVerification { SanExtOnly, SanOrCommonName, DisableNameVerification }
+    pub enum ClientNameVerification { None, SanExtOnly(crate::rustls::pki_types::ServerName<'static>), SanOrCommonName(crate::rustls::pki_types::ServerName<'static>) }
+    pub open spec fn client_name_check(v: ClientNameVerification) -> NameCheck {
+        match v { ClientNameVerification::None => NameCheck::NoNameCheck, ClientNameVerification::SanExtOnly(_) => NameCheck::SanExtOnly, ClientNameVerification::SanOrCommonName(_) => NameCheck::SanOrCommonName }
+    }
+    pub open spec fn server_name_check(v: ServerNameVerification) -> NameCheck {
+        match v { ServerNameVerification::DisableNameVerification => NameCheck::NoNameCheck, ServerNameVerification::SanExtOnly => NameCheck::SanExtOnly, ServerNameVerification::SanOrCommonName => NameCheck::SanOrCommonName }
+    }
+    pub mod server {
+        use vstd::prelude::*;
+        use crate::tls_env::Path;
+        use crate::tls_env::*;
+        use super::{ProtocolVersions, ClientNameVerification, Error, client_name_check};
+        #[verifier::external_body]
+        pub fn self_signed(versions: ProtocolVersions, peer_cert_path: &Path, local_cert_path: &Path, private_key_path: &Path, private_key_password: Option<&str>) -> (r: Result<crate::rustls::ServerConfig, Error>)
+            ensures r matches Ok(c) ==> c.e == (Enforced { peer: PeerCheck::SelfSignedMatch, name: NameCheck::NoNameCheck, versions, peer_cert: path_id(peer_cert_path), local_cert: path_id(local_cert_path), key: path_id(private_key_path), password: pw(private_key_password) }),
+        { unimplemented!() }
+        #[verifier::external_body]
+        pub fn authority(versions: ProtocolVersions, name_verification: ClientNameVerification, ca_cert_path: &Path, local_cert_chain_path: &Path, private_key_path: &Path, private_key_password: Option<&str>) -> (r: Result<crate::rustls::ServerConfig, Error>)
+            ensures r matches Ok(c) ==> c.e == (Enforced { peer: PeerCheck::ChainToAuthority, name: client_name_check(name_verification), versions, peer_cert: path_id(ca_cert_path), local_cert: path_id(local_cert_chain_path), key: path_id(private_key_path), password: pw(private_key_password) }),
+        { unimplemented!() }
+    }
+    pub mod client {
+        use vstd::prelude::*;
+        use crate::tls_env::Path;
+        use crate::tls_env::*;
+        use super::{ProtocolVersions, ServerNameVerification, Error, server_name_check};
+        #[verifier::external_body]
+        pub fn self_signed(versions: ProtocolVersions, peer_cert_path: &Path, local_cert_path: &Path, private_key_path: &Path, private_key_password: Option<&str>) -> (r: Result<crate::rustls::ClientConfig, Error>)
+            ensures r matches Ok(c) ==> c.e == (Enforced { peer: PeerCheck::SelfSignedMatch, name: NameCheck::NoNameCheck, versions, peer_cert: path_id(peer_cert_path), local_cert: path_id(local_cert_path), key: path_id(private_key_path), password: pw(private_key_password) }),
+        { unimplemented!() }
+        #[verifier::external_body]
+        pub fn authority(versions: ProtocolVersions, name_verification: ServerNameVerification, ca_cert_path: &Path, local_cert_chain_path: &Path, private_key_path: &Path, private_key_password: Option<&str>) -> (r: Result<crate::rustls::ClientConfig, Error>)
+            ensures r matches Ok(c) ==> c.e == (Enforced { peer: PeerCheck::ChainToAuthority, name: server_name_check(name_verification), versions, peer_cert: path_id(ca_cert_path), local_cert: path_id(local_cert_chain_path), key: path_id(private_key_path), password: pw(private_key_password) }),
+        { unimplemented!() }
+    }
+//@trusted sfio_rustls_config::{server,client}::{self_signed,authority}: assumed contracts - the configuration enforces the peer check of that constructor, the given name verification and protocol versions, with the given files and password; rustls / webpki certificate validation itself is outside the verifier's reach
     // verbatim from the dependency (cargo registry, version pinned by Cargo.lock)
 //@item @registry/sfio-rustls-config-0.4.0/src/versions.rs | ProtocolVersions | derive=Copy,Clone
     // R13: derive(Default) replaced by its expansion (all fields Default::default(), i.e. false)
@@ -22,10 +63,82 @@ pub mod sfio_rustls_config {
 //@|    ensures r.v1_3, r.v1_2 == self.v1_2,
     }
 }
+// what a TLS configuration built by sfio-rustls-config enforces (assumed contracts on the dependency; the certificate validation itself
+// - chain building, validity period, name matching - is inside rustls / webpki and not decided here)
+pub mod tls_env {
+    use vstd::prelude::*;
+    use crate::sfio_rustls_config::ProtocolVersions;
+    // std::path::Path stands for itself by name (the installed Verus cannot declare it: trait-conflict check on ToOwned); only passed through
+    pub struct Path { pub x: u8 }
+    pub uninterp spec fn path_id(p: &Path) -> int;
+    pub enum PeerCheck { SelfSignedMatch, ChainToAuthority }
+    pub enum NameCheck { NoNameCheck, SanExtOnly, SanOrCommonName }
+    pub ghost struct Enforced { pub peer: PeerCheck, pub name: NameCheck, pub versions: ProtocolVersions, pub peer_cert: int, pub local_cert: int, pub key: int, pub password: Option<Seq<char>> }
+    pub open spec fn pw(p: Option<&str>) -> Option<Seq<char>> { match p { Some(s) => Some(s@), None => None } }
+}
+pub mod rustls {
+    use vstd::prelude::*;
+    pub struct ServerConfig { pub ghost e: crate::tls_env::Enforced }
+    pub struct ClientConfig { pub ghost e: crate::tls_env::Enforced }
+    pub mod pki_types {
+        use vstd::prelude::*;
+        pub struct InvalidDnsNameError { pub x: u8 }
+        // a DNS name or an IP address (an IP address makes the client send no SNI extension)
+        pub struct Ipv4Addr { pub x: u8 }
+        pub enum IpAddr { V4(Ipv4Addr), V6 }
+        pub enum ServerName<'a> { DnsName(String), IpAddress(IpAddr), Borrowed(&'a u8) }
+        impl ServerName<'static> {
+            #[verifier::external_body]
+            pub fn try_from(x: String) -> (r: Result<ServerName<'static>, InvalidDnsNameError>) ensures r matches Ok(n) ==> n == ServerName::<'static>::DnsName(x) { unimplemented!() }
+        }
+        impl From<crate::std_net::Ipv4Addr> for Ipv4Addr {
+            #[verifier::external_body]
+            fn from(a: crate::std_net::Ipv4Addr) -> (r: Self) { unimplemented!() }
+        }
+        impl vstd::std_specs::convert::FromSpecImpl<crate::std_net::Ipv4Addr> for Ipv4Addr {
+            open spec fn obeys_from_spec() -> bool { false }
+            open spec fn from_spec(a: crate::std_net::Ipv4Addr) -> Self { Ipv4Addr { x: 0 } }
+        }
+    }
+}
+// std::net::Ipv4Addr as used for the "unspecified" placeholder server name
+pub mod std_net {
+    pub struct Ipv4Addr { pub x: u8 }
+    impl Ipv4Addr { pub const UNSPECIFIED: Ipv4Addr = Ipv4Addr { x: 0 }; }
+}
 pub mod tcp { pub mod tls {
     use vstd::prelude::*;
 //@item rodbus/src/tcp/tls/mod.rs | MinTlsVersion
 //@item rodbus/src/tcp/tls/mod.rs | CertificateMode
+//@item rodbus/src/tcp/tls/mod.rs | TlsError
+    impl From<crate::sfio_rustls_config::Error> for TlsError {
+        #[verifier::external_body]
+        fn from(err: crate::sfio_rustls_config::Error) -> (r: Self) ensures r is BadConfig { unimplemented!() }
+    }
+    impl vstd::std_specs::convert::FromSpecImpl<crate::sfio_rustls_config::Error> for TlsError {
+        open spec fn obeys_from_spec() -> bool { false }
+        open spec fn from_spec(err: crate::sfio_rustls_config::Error) -> Self { TlsError::InvalidDnsName }
+    }
+    pub mod server {
+        use vstd::prelude::*;
+        use crate::tls_env::Path;
+        use std::sync::Arc;
+        use crate::sfio_rustls_config;
+        use crate::sfio_rustls_config::ClientNameVerification;
+        use crate::rustls;
+        use crate::tls_env::*;
+        use crate::tcp::tls::{CertificateMode, MinTlsVersion, TlsError};
+//@item rodbus/src/tcp/tls/server.rs | TlsServerConfig | derive=
+        impl TlsServerConfig {
+// [C09] certificate mode -> verifier construction, minimum version -> enabled versions; paths and password forwarded unchanged
+//@fn rodbus/src/tcp/tls/server.rs | TlsServerConfig::new | tags=C09 | r10
+//@|    ensures r matches Ok(c) ==> (*c.inner).e == (Enforced {
+//@|            peer: match certificate_mode { CertificateMode::SelfSigned => PeerCheck::SelfSignedMatch, CertificateMode::AuthorityBased => PeerCheck::ChainToAuthority },
+//@|            name: NameCheck::NoNameCheck,          // mutual TLS: the client is identified by its certificate chain / role, not by a name
+//@|            versions: crate::tcp::tls::client::spec_versions(min_tls_version),
+//@|            peer_cert: path_id(peer_cert_path), local_cert: path_id(local_cert_path), key: path_id(private_key_path), password: pw(password) }),
+        }
+    }
     pub mod client {
         use vstd::prelude::*;
         use vstd::std_specs::convert::FromSpecImpl;
@@ -33,17 +146,49 @@ pub mod tcp { pub mod tls {
         use crate::tcp::tls::MinTlsVersion;
         // [C09] never a protocol version below the configured minimum, and every version at or above it:
         //   minimum 1.2 -> {1.2, 1.3};   minimum 1.3 -> {1.3}
+        pub open spec fn spec_versions(value: MinTlsVersion) -> ProtocolVersions {
+            match value {
+                MinTlsVersion::V1_2 => ProtocolVersions { v1_2: true, v1_3: true },
+                MinTlsVersion::V1_3 => ProtocolVersions { v1_2: false, v1_3: true },
+            }
+        }
         impl FromSpecImpl<MinTlsVersion> for ProtocolVersions {
             open spec fn obeys_from_spec() -> bool { true }
-            open spec fn from_spec(value: MinTlsVersion) -> Self {
-                match value {
-                    MinTlsVersion::V1_2 => ProtocolVersions { v1_2: true, v1_3: true },
-                    MinTlsVersion::V1_3 => ProtocolVersions { v1_2: false, v1_3: true },
-                }
-            }
+            open spec fn from_spec(value: MinTlsVersion) -> Self { spec_versions(value) }
         }
         impl From<MinTlsVersion> for ProtocolVersions {
 //@fn rodbus/src/tcp/tls/client.rs | From<MinTlsVersion> for ProtocolVersions::from | tags=C09
+        }
+        use crate::tls_env::Path;
+        use std::sync::Arc;
+        use crate::sfio_rustls_config;
+        use crate::sfio_rustls_config::ServerNameVerification;
+        use crate::rustls;
+        use crate::tls_env::*;
+        use crate::tcp::tls::{CertificateMode, TlsError};
+        use crate::rustls::pki_types::InvalidDnsNameError;
+        use crate::std_net::Ipv4Addr;
+        impl FromSpecImpl<rustls::pki_types::InvalidDnsNameError> for TlsError {
+            open spec fn obeys_from_spec() -> bool { true }
+            open spec fn from_spec(e: rustls::pki_types::InvalidDnsNameError) -> Self { TlsError::InvalidDnsName }
+        }
+        impl From<rustls::pki_types::InvalidDnsNameError> for TlsError {
+//@fn rodbus/src/tcp/tls/client.rs | From<InvalidDnsNameError> for TlsError::from | tags=C09
+        }
+//@item rodbus/src/tcp/tls/client.rs | TlsClientConfig | derive=
+        impl TlsClientConfig {
+// [C09] authority mode: chain to the configured authority and - when a subject name is given - that name must match;
+// self-signed mode: the configured certificate itself; never a version below the configured minimum
+//@fn rodbus/src/tcp/tls/client.rs | TlsClientConfig::full_pki | tags=C09| r10
+//@|    ensures r matches Ok(c) ==> (*c.config).e == (Enforced { peer: PeerCheck::ChainToAuthority,
+//@|            name: (if server_subject_name is Some { NameCheck::SanOrCommonName } else { NameCheck::NoNameCheck }),
+//@|            versions: spec_versions(min_tls_version),
+//@|            peer_cert: path_id(peer_cert_path), local_cert: path_id(local_cert_path), key: path_id(private_key_path), password: pw(password) })
+//@|        && (server_subject_name matches Some(n) ==> c.server_name == rustls::pki_types::ServerName::<'static>::DnsName(n)),
+//@fn rodbus/src/tcp/tls/client.rs | TlsClientConfig::self_signed | tags=C09 | r10
+//@|    ensures r matches Ok(c) ==> (*c.config).e == (Enforced { peer: PeerCheck::SelfSignedMatch, name: NameCheck::NoNameCheck,
+//@|            versions: spec_versions(min_tls_version),
+//@|            peer_cert: path_id(peer_cert_path), local_cert: path_id(local_cert_path), key: path_id(private_key_path), password: pw(password) }),
         }
     }
 }}
